@@ -3,6 +3,7 @@ C02 property theorems.  (A) unwinding, (B) exception matching, (C) line table,
 (D) compiler/VM simulation against the statement semantics.
 -/
 import GPy.C02.Sim
+import GPy.C02.Generated
 import GPy.C16.Props
 namespace GPy.C02
 
@@ -417,6 +418,234 @@ theorem handler_first_match {W} (P : Prims W) (code : Code) (fuel : Nat) (ln : N
     have h2f : ¬ catches m2.classes c = true := fun hh' => hn2 ((catches_iff _ _).mp hh')
     exact key w1 (.exc c l) (by rw [if_neg h1f, if_neg h2f])
 
+/-! ## (D') register discipline: a parked reason is resumed with its own operand
+
+`vm.retval` is ONE register with several users: RETURN_VALUE keeps the value being returned in it,
+CONTINUE_LOOP the loop-head address (as `py.Int`), YIELD_VALUE the yielded value; a resumed generator
+frame runs in a fresh `Vm` whose `retval` is nil.  While a finally body runs, the pending
+`return`/`continue` therefore lives on the VALUE STACK (`PUSH(retval); PUSH(Int(why))` in the
+unwinder), and END_FINALLY must write it back. -/
+
+/-- **end_finally_restores (instruction level).**  END_FINALLY on a parked `return`/`continue` pair
+`Int(why) :: rv :: S` sets `vm.why` AND `vm.retval` from the pair - whatever the two registers hold
+at that moment - and pops exactly the pair. -/
+theorem end_finally_restores {W} (P : Prims W) (vm : VM W) (why : Why) (rv : Val) (S : List Val) (ln : Nat)
+    (hw : why = .ret ∨ why = .cont) (hst : vm.stack = .int why.code :: rv :: S) :
+    exec P .endFinally ln vm = .ok { vm with stack := S, why := why, retval := rv } := by
+  obtain ⟨pc, st, bl, w0, r0, cur, exc, w⟩ := vm
+  simp only at hst
+  subst hst
+  rcases hw with rfl | rfl <;> simp [exec, Why.code, Why.ofCode]
+
+/-- a parked `break` has no operand: END_FINALLY restores the reason and leaves `retval` alone -/
+theorem end_finally_restores_break {W} (P : Prims W) (vm : VM W) (S : List Val) (ln : Nat)
+    (hst : vm.stack = .int Why.brk.code :: S) :
+    exec P .endFinally ln vm = .ok { vm with stack := S, why := .brk } := by
+  obtain ⟨pc, st, bl, w0, r0, cur, exc, w⟩ := vm
+  simp only at hst
+  subst hst
+  simp [exec, Why.code, Why.ofCode]
+
+/-- **parked_reason_restored.**  Unwinding into a finally block (`resumeState`) followed - after a
+finally body that left the value stack as it found it but may have put ANYTHING into the registers
+`vm.retval` (`clob`: its own CONTINUE_LOOP targets, its own return values, yielded values, nil of a
+fresh Vm) and `vm.why`/`pc`/world (`pc'`, `w'`) - by END_FINALLY resumes the original reason with
+the original operand. -/
+theorem parked_reason_restored {W} (P : Prims W) (vm : VM W) (b : Block) (rest : List Block)
+    (S : List Val) (e : ExcInfo) (ln pc' : Nat) (clob : Val) (w' : W)
+    (hk : b.kind = .finally) (hw : vm.why = .ret ∨ vm.why = .cont ∨ vm.why = .brk) :
+    ∃ vm2, exec P .endFinally ln { resumeState vm b rest S e with pc := pc', retval := clob, world := w' } = .ok vm2 ∧
+      vm2.why = vm.why ∧ (vm.why = .ret ∨ vm.why = .cont → vm2.retval = vm.retval) ∧
+      vm2.stack = cutTo b.level S ∧ vm2.blocks = rest ∧ vm2.world = w' := by
+  obtain ⟨pc, st, bl, why, rv, cur, exc, w⟩ := vm
+  obtain ⟨k, h, l⟩ := b
+  simp only at hk hw
+  subst hk
+  rcases hw with hw | hw | hw <;> subst hw
+  · exact ⟨_, by simp [resumeState, exec, Why.code, Why.ofCode]; rfl, by simp⟩
+  · exact ⟨_, by simp [resumeState, exec, Why.code, Why.ofCode]; rfl, by simp⟩
+  · exact ⟨_, by simp [resumeState, exec, Why.code, Why.ofCode]; rfl, by simp⟩
+
+/-- **resumed_generator_frame.**  A generator frame that yields and is resumed keeps its FRAME (pc,
+value stack with every parked pair on it, block stack, handled exception) and gets the `None` sent
+by `next()` pushed; the `Vm` registers are fresh: `why = whyNot`, `retval = nil`, no pending
+exception.  So nothing but the value stack can carry a parked reason across a yield. -/
+theorem resumed_generator_frame {W} (P : Prims W) (code : Code) (vm : VM W) (hy : vm.why = .yield) :
+    step P code vm = .next (resumeGen P vm) ∧
+    (resumeGen P vm).pc = vm.pc ∧ (resumeGen P vm).stack = .none :: vm.stack ∧ (resumeGen P vm).blocks = vm.blocks ∧
+    (resumeGen P vm).exc = vm.exc ∧ (resumeGen P vm).why = .not ∧ (resumeGen P vm).retval = .nil ∧
+    (resumeGen P vm).curexc = {} ∧ (resumeGen P vm).world = P.yielded vm.world vm.retval := by
+  refine ⟨?_, rfl, rfl, rfl, rfl, rfl, rfl, rfl, rfl⟩
+  unfold step
+  rw [if_neg (by rw [hy]; decide), if_pos hy]
+
+/-- semantics of leaving k try/finally statements by a non-exceptional abrupt outcome -/
+theorem execS_wrapF {W} (P : Prims W) (hd : Handled) (o : Outcome) (ho : finHd hd o = hd) :
+    ∀ (fins : List (Nat × Stmt)) (f : Nat) (s : Stmt) (w w0 w' : W),
+      execS P f s w hd = some (w0, o) → FinChain P hd f fins w0 w' →
+      execS P (f + fins.length) (wrapF s fins) w hd = some (w', o) := by
+  intro fins
+  induction fins with
+  | nil =>
+    intro f s w w0 w' hs hch
+    cases hch
+    simpa [wrapF] using hs
+  | cons x rest ih =>
+    intro f s w w0 w' hs hch
+    obtain ⟨ln, fin⟩ := x
+    cases hch with
+    | @cons _ _ _ _ _ w1 _ hfin hrest =>
+      have hstep : execS P (f + 1) (.tryF ln s fin) w hd = some (w1, o) := by
+        unfold execS at hs hfin ⊢
+        unfold execT
+        simp only [hs, ho, hfin]
+      have := ih (f + 1) (.tryF ln s fin) w _ w' hstep hrest
+      simpa [wrapF, List.length_cons, Nat.add_assoc, Nat.add_comm 1] using this
+
+/-- **return_leaves_finallies_with_own_value (register discipline, `return`).**  For every k ≥ 0 and
+every finally bodies `fins` - ANY statements of the fragment: with their own loops and
+`continue`/`break` (CONTINUE_LOOP writes `vm.retval`), their own nested try/finally with their own
+parked and overridden returns, yields of a generator frame (fresh `Vm` on resumption), handled
+exceptions - that each run to a normal end: `return ev(i)` inside k nested try/finally statements
+runs the finally bodies innermost first (world `w0 → w'` along `FinChain`) and then completes as a
+`return` of ITS OWN value `v`: `vm.why = whyReturn ∧ vm.retval = v`.  Corollary of `compS_correct`:
+every parked pair was restored exactly. -/
+theorem return_leaves_finallies_with_own_value {W} (P : Prims W) (code : Code) (f : Nat) (ln i : Nat) (v : Int)
+    (fins : List (Nat × Stmt)) (w w0 w' : W) (hd : Handled)
+    (hev : P.ev w i = (w0, .val v)) (hch : FinChain P hd (f + 1) fins w0 w')
+    (ctx : Ctx) (pc cur : Nat) (st : List Val) (bs : List Block) (rv : Val)
+    (hce : compErr ctx pc (wrapF (.ret ln i) fins) = none)
+    (hc : CodeAt code pc (compS ctx pc cur (wrapF (.ret ln i) fins))) (hinv : CtxInv ctx bs) :
+    ∃ vm', Reach P code ⟨pc, st, bs, .not, rv, {}, hdInfo hd, w⟩ vm' ∧
+      vm'.why = .ret ∧ vm'.retval = .int v ∧ vm'.world = w' ∧ vm'.blocks = bs ∧ vm'.curexc = {} ∧ vm'.exc = hdInfo hd := by
+  have hs : execS P (f + 1) (.ret ln i) w hd = some (w0, .ret v) := by
+    unfold execS execT
+    simp only [hev]
+  have hx := execS_wrapF P hd (.ret v) rfl fins (f + 1) (.ret ln i) w w0 w' hs hch
+  obtain ⟨vm', hr, hp⟩ := compS_correct P code _ _ w w' _ hd hx ctx pc cur st bs rv hce hc hinv
+  obtain ⟨hw, hb, he, hwhy, hrv, hcur, _⟩ := hp
+  exact ⟨vm', hr, hwhy, hrv, hw, hb, hcur, he⟩
+
+/-- **continue_leaves_finallies_with_own_target (register discipline, `continue`).**  The same for a
+`continue` inside k ≥ 1 nested try/finally statements inside a loop whose head is at `s`
+(`findLoop`): after the finally bodies, whatever they executed, the pending `continue` carries the
+head of ITS loop (`vm.retval = Int s`; directly inside the loop body: the jump to `s` has been
+taken) - not the head of a loop that ran inside a finally body. -/
+theorem continue_leaves_finallies_with_own_target {W} (P : Prims W) (code : Code) (f : Nat) (ln : Nat)
+    (fins : List (Nat × Stmt)) (w w' : W) (hd : Handled)
+    (hch : FinChain P hd (f + 1) fins w w')
+    (ctx : Ctx) (pc cur : Nat) (st : List Val) (bs : List Block) (rv : Val)
+    (hce : compErr ctx pc (wrapF (.cont ln) fins) = none)
+    (hc : CodeAt code pc (compS ctx pc cur (wrapF (.cont ln) fins))) (hinv : CtxInv ctx bs) :
+    ∃ vm', Reach P code ⟨pc, st, bs, .not, rv, {}, hdInfo hd, w⟩ vm' ∧
+      ContAt ctx vm' ∧ vm'.world = w' ∧ vm'.blocks = bs ∧ vm'.stack = st ∧ vm'.curexc = {} := by
+  have hs : execS P (f + 1) (.cont ln) w hd = some (w, .cont) := by
+    unfold execS execT; rfl
+  have hx := execS_wrapF P hd .cont rfl fins (f + 1) (.cont ln) w w w' hs hch
+  obtain ⟨vm', hr, hp⟩ := compS_correct P code _ _ w w' _ hd hx ctx pc cur st bs rv hce hc hinv
+  obtain ⟨hw, hb, _, hcur, hst, hcont⟩ := hp
+  exact ⟨vm', hr, hcont, hw, hb, hst, hcur⟩
+
+/-- the same for `break` (no operand: the reason alone is parked) -/
+theorem break_leaves_finallies {W} (P : Prims W) (code : Code) (f : Nat) (ln : Nat)
+    (fins : List (Nat × Stmt)) (w w' : W) (hd : Handled)
+    (hch : FinChain P hd (f + 1) fins w w')
+    (ctx : Ctx) (pc cur : Nat) (st : List Val) (bs : List Block) (rv : Val)
+    (hce : compErr ctx pc (wrapF (.brk ln) fins) = none)
+    (hc : CodeAt code pc (compS ctx pc cur (wrapF (.brk ln) fins))) (hinv : CtxInv ctx bs) :
+    ∃ vm', Reach P code ⟨pc, st, bs, .not, rv, {}, hdInfo hd, w⟩ vm' ∧
+      vm'.why = .brk ∧ vm'.world = w' ∧ vm'.blocks = bs ∧ vm'.curexc = {} := by
+  have hs : execS P (f + 1) (.brk ln) w hd = some (w, .brk) := by
+    unfold execS execT; rfl
+  have hx := execS_wrapF P hd .brk rfl fins (f + 1) (.brk ln) w w w' hs hch
+  obtain ⟨vm', hr, hp⟩ := compS_correct P code _ _ w w' _ hd hx ctx pc cur st bs rv hce hc hinv
+  obtain ⟨hw, hb, _, hwhy, _, hcur, _⟩ := hp
+  exact ⟨vm', hr, hwhy, hw, hb, hcur⟩
+
+/-! ## (D'') the register fact table: extracted from vm/eval.go, pinned against the step function
+
+`GPy.C02.Generated.regFacts` is regenerated on every run by `extract/c02regs` (go/ast over the working
+tree's vm/eval.go): per region of the interpreter that uses the unwinder's registers, whether it
+writes `vm.retval` (from a `vm.POP()`? with nil?), reads it, writes `vm.why`, and how many `PUSH` /
+`POP|DROP` calls it makes.  `modelRegFacts` is the same table as the MODEL has it; each row's content
+is a universally quantified fact about `exec` / `unwind1` / `frameExit` (`modelRegFacts_sound`).
+`regfacts_pinned` fails as soon as a handler of the real code stops restoring (or starts clobbering) a
+register or moves a different number of values - even if no generated program tells the difference. -/
+
+def modelRegFacts : List Generated.RegFact := [
+  ⟨"RETURN_VALUE", true, true, true, false, false, true, 0, 1⟩,        -- retval := POP; why := return
+  ⟨"CONTINUE_LOOP", true, true, false, false, false, true, 0, 0⟩,      -- retval := Int(target); why := continue
+  ⟨"BREAK_LOOP", true, false, false, false, false, true, 0, 0⟩,        -- why := break, no operand
+  ⟨"YIELD_VALUE", true, true, true, false, false, true, 0, 1⟩,         -- retval := POP; why := yield
+  ⟨"YIELD_FROM.yield", true, true, false, false, false, true, 0, 0⟩,   -- (not in the model's instruction set; pinned only)
+  ⟨"POP_EXCEPT", true, false, false, false, false, false, 0, 0⟩,       -- touches neither register
+  ⟨"END_FINALLY.head", true, false, false, false, false, false, 0, 1⟩, -- v := POP
+  ⟨"END_FINALLY.int", true, false, false, false, false, true, 0, 0⟩,   -- why := the popped Int
+  ⟨"END_FINALLY.retcont", true, true, true, false, false, false, 0, 1⟩,-- retval := POP   (the restore)
+  ⟨"END_FINALLY.silenced", true, false, false, false, false, true, 0, 0⟩,
+  ⟨"END_FINALLY.exc", true, false, false, false, false, true, 0, 2⟩,   -- two more POPs, why := exception
+  ⟨"WITH_CLEANUP.retcont", true, false, false, false, false, false, 0, 0⟩, -- shuffles the pair, registers untouched
+  ⟨"WITH_CLEANUP.other", true, false, false, false, false, false, 0, 0⟩,
+  ⟨"unwind.loopcont", true, false, false, false, true, true, 0, 0⟩,    -- Lasti := retval.(Int); why := not
+  ⟨"unwind.finally", true, false, false, false, true, true, 2, 0⟩,     -- PUSH(retval) (return/continue); PUSH(Int(why)); why := not
+  ⟨"exit", true, true, false, true, false, false, 0, 0⟩                -- why != return: retval := nil
+]
+
+/-- **regfacts_pinned.**  The table extracted from the working tree's vm/eval.go is the model's. -/
+theorem regfacts_pinned : Generated.regFacts = modelRegFacts := by decide
+
+/-- **modelRegFacts_sound.**  What the rows of `modelRegFacts` say, as facts about the model's step
+function for ALL machine states (row by row, in the order of the table; YIELD_FROM is outside the
+model, POP_EXCEPT / END_FINALLY.silenced / WITH_CLEANUP.other move no register in `exec` by
+construction of the record updates). -/
+theorem modelRegFacts_sound {W} (P : Prims W) (vm : VM W) (ln : Nat) :
+    -- RETURN_VALUE / YIELD_VALUE: retval := the popped value
+    (∀ v rest, vm.stack = v :: rest →
+      exec P .returnValue ln vm = .ok { vm with stack := rest, retval := v, why := .ret } ∧
+      exec P .yieldValue ln vm = .ok { vm with stack := rest, retval := v, why := .yield }) ∧
+    -- CONTINUE_LOOP: retval := the loop head; BREAK_LOOP: no operand
+    (∀ t, exec P (.continueLoop t) ln vm = .ok { vm with retval := .int t, why := .cont }) ∧
+    exec P .breakLoop ln vm = .ok { vm with why := .brk } ∧
+    -- END_FINALLY: head only (None) / the Int alone (break) / the pair (return, continue) / an exception triple
+    (∀ rest, vm.stack = .none :: rest → exec P .endFinally ln vm = .ok { vm with stack := rest }) ∧
+    (∀ S, vm.stack = .int Why.brk.code :: S → exec P .endFinally ln vm = .ok { vm with stack := S, why := .brk }) ∧
+    (∀ why rv S, why = .ret ∨ why = .cont → vm.stack = .int why.code :: rv :: S →
+      exec P .endFinally ln vm = .ok { vm with stack := S, why := why, retval := rv }) ∧
+    (∀ c w u rest, vm.stack = .cls c :: w :: u :: rest →
+      exec P .endFinally ln vm = .ok { vm with stack := rest, curexc := { type := some c, value := w, tb := u.asTb }, why := .exception }) ∧
+    -- WITH_CLEANUP with a parked pair: `__exit__` is called, the pair stays, the registers are not touched
+    (∀ n rv i rest, n = Why.ret.code ∨ n = Why.cont.code → vm.stack = .int n :: rv :: .exitm i :: rest →
+      exec P .withCleanup ln vm = .ok { vm with stack := .int n :: rv :: rest, world := (P.cmExit vm.world i none).1 }) ∧
+    -- the unwinder: a loop block takes `continue` by jumping to retval; a finally block parks reason (and operand)
+    (∀ h l bs d, vm.why = .cont → vm.retval = .int d →
+      unwind1 vm ⟨.loop, h, l⟩ bs = .resume { vm with why := .not, pc := d.toNat }) ∧
+    (∀ h bs, vm.why = .ret ∨ vm.why = .cont →
+      unwind1 vm ⟨.finally, h, vm.stack.length⟩ bs =
+        .resume { vm with blocks := bs, stack := .int vm.why.code :: vm.retval :: vm.stack, why := .not, pc := h.toNat }) ∧
+    -- the epilogue: unless the reason is `return` the register's content is dropped
+    (vm.why ≠ .ret → frameExit vm = frameExit { vm with retval := .nil }) := by
+  obtain ⟨pc, st, bl, why, rv, cur, exc, w⟩ := vm
+  refine ⟨?_, ?_, ?_, ?_, ?_, ?_, ?_, ?_, ?_, ?_, ?_⟩
+  · intro v rest h; simp only at h; subst h; exact ⟨rfl, rfl⟩
+  · intro t; rfl
+  · rfl
+  · intro rest h; simp only at h; subst h; rfl
+  · intro S h; exact end_finally_restores_break P _ S ln h
+  · intro why' rv' S hw h; exact end_finally_restores P _ why' rv' S ln hw h
+  · intro c w' u rest h; simp only at h; subst h; rfl
+  · intro n rv' i rest hn h
+    simp only at h; subst h
+    rcases hn with rfl | rfl <;> simp [exec, Why.code]
+  · intro h l bs d hw hr
+    simp only at hw hr; subst hw; subst hr
+    simp [unwind1]
+  · intro h bs hw
+    simp only at hw
+    rcases hw with rfl | rfl <;> simp [unwind1, unwindBlock, Why.code]
+  · intro hw
+    simp only at hw
+    simp [frameExit, hw]
+
 /-! ## (E) the traceback names every active call -/
 
 /-- one calling frame `def g(): return f()` (model `run` = RunFrame on `wrapperCode`) -/
@@ -513,5 +742,29 @@ example : execFn unitPrims 20
       (.seq (.tryE 5 (.tryF 6 (.raise 7 .ValueError) (.pass 9)) ⟨10, [.ValueError], false⟩ (.pass 11) none .skip .skip)
             (.reraise 12)) none .skip .skip) () = some ((), .exc .KeyError 3) := by decide
 example : execFn unitPrims 10 (.reraise 2) () = some ((), .exc .RuntimeError 2) := by decide
+
+/-- non-vacuity of the register-discipline theorems - the seeded scenario C02-b: the finally body of
+`try: return ev(1) finally: for x in it(1): try: continue finally: pass` runs to a normal end
+(`FinChain`), although it executes CONTINUE_LOOP (which overwrites `vm.retval` with a loop head) -/
+def onePrims : Prims Nat where
+  ev w _ := (w, .val 7)
+  itNew w _ := (0, 0)
+  itNext w _ := if w < 2 then (w + 1, some 1) else (w, none)
+  cmEnter w _ := w
+  cmExit w _ _ := (w, .none)
+
+def seedFin : Stmt := .forS 5 2 (.tryF 6 (.cont 7) (.pass 9)) .skip
+
+example : FinChain onePrims none 11 [(2, seedFin)] 0 2 :=
+  .cons (w1 := 2) (by decide) (.nil _ _)
+example : compErr [] 0 (wrapF (.ret 3 1) [(2, seedFin)]) = none := by decide
+example : execFn onePrims 20 (wrapF (.ret 3 1) [(2, seedFin)]) 0 = some (2, .ret (some 7)) := by decide
+/-- and the model machine really runs CONTINUE_LOOP with the return parked, then returns 7 -/
+example : ∃ code, compileFn 1 (wrapF (.ret 3 1) [(2, seedFin)]) = .ok code ∧
+    isRet (run onePrims code 200 (initVM 0)) (.int 7) 2 = true := ⟨_, rfl, by decide⟩
+/-- a generator frame: `try: return ev(1) finally: yield ev(2)` returns 7 although the frame was
+resumed in a fresh Vm (retval nil) between the park and END_FINALLY -/
+example : ∃ code, compileFn 1 (wrapF (.ret 3 1) [(2, .yieldS 5 2)]) = .ok code ∧
+    isRet (run onePrims code 200 (initVM 0)) (.int 7) 0 = true := ⟨_, rfl, by decide⟩
 
 end GPy.C02
